@@ -18,8 +18,12 @@
 import NdnVerif.C03.Model
 namespace Ndn.C03
 
-/-- lengths whose `int(l)` / `pos+l` arithmetic wraps in Go are outside this model (C04) -/
-def lenOutOfModel (l : Nat) : Bool := l ≥ 2 ^ 62
+/-- `int(l)` of a TLNum `l ≥ 2^63` is negative. The reader operations take `Nat` lengths and fail for
+    every length beyond the remaining input, which is also what the Go readers do for a negative
+    `int` (ReadWire/ReadBuf/Skip return an error, Delegate returns an empty reader without advancing);
+    only the `for i := 0; i < int(l); i++` loops and `io.CopyN(…, int64(l))` behave differently for a
+    negative count: they do nothing and report no error. -/
+def negInt (l : Nat) : Bool := l ≥ 2 ^ 63
 
 /-- `ReadTLNum`: 1, 3, 5 or 9 × ReadByte -/
 def readBytesAcc : Nat → Rd → Nat → Res (Nat × Rd)
@@ -34,19 +38,26 @@ def readTL (r : Rd) : Res (Nat × Rd) := do
   else readBytesAcc (tlExtra x) r 0
 
 /-- natural / time / fixedUint value: `for i := 0; i < int(l); i++ { ReadByte }` accumulating in a
-    `width`-bit unsigned. (If fewer than `l` bytes remain the loop ends in io.ErrUnexpectedEOF; the
-    guard avoids iterating a huge `l`.) -/
+    `width`-bit unsigned. A negative `int(l)` runs zero iterations (value 0, no error). If fewer than
+    `l` bytes remain the loop ends in io.ErrUnexpectedEOF; the guard avoids iterating a huge `l`. -/
 def readNat (r : Rd) (l : Nat) (width : Nat) : Res (Nat × Rd) :=
-  if l > r.length - r.pos then .err
+  if negInt l then .ok (0, r)
+  else if l > r.length - r.pos then .err
   else do
     let (v, r) ← readBytesAcc l r 0
     pure (v % 2 ^ width, r)
 
 def critical (typ : Nat) : Bool := typ ≤ 31 || typ % 2 == 1
 
-/-- allocation sized by an untrusted length (`make(enc.Name, l/2+1)`, `make([]byte, l)`) -/
-def allocGuard (r : Rd) (l : Nat) : Res Unit :=
-  if l > r.length - r.pos ∧ l ≥ 2 ^ 26 then .alloc else .ok ()
+/-- the generated guard of name and binary fields (`if l > enc.TLNum(reader.Length()-reader.Pos())`,
+    an unsigned comparison): the announced length must not exceed what is left to read -/
+def lenGuard (r : Rd) (l : Nat) : Res Unit :=
+  if l > r.length - r.pos then .err else .ok ()
+
+/-- string field: `io.CopyN(&builder, reader, int64(l))`; a negative count copies nothing and reports
+    no error -/
+def readString (r : Rd) (l : Nat) : Res (Bytes × Rd) :=
+  if negInt l then .ok ([], r) else r.readFull l
 
 /-! ### names -/
 
@@ -62,13 +73,12 @@ def nameLoop : Nat → Rd → Nat → Name → Nat → Res (Name × Nat × Rd)
     else do
       let (t, r) ← readTL r
       let (l, r) ← readTL r
-      if lenOutOfModel l then .oom else
       let (v, r) ← r.readBuf l
       nameLoop fuel r endName (acc ++ [⟨t, v⟩]) (if t = 2 then startComponent else sigEnd)
 
 /-- a name field of announced length `l`: (name, sigCoverEnd, reader) -/
 def readNameField (r : Rd) (l : Nat) : Res (Name × Nat × Rd) := do
-  allocGuard r l
+  lenGuard r l
   let startName := r.pos
   nameLoop (l / 2 + 1) r (startName + l) [] (startName + l)
 
@@ -76,7 +86,6 @@ def readNameField (r : Rd) (l : Nat) : Res (Name × Nat × Rd) := do
 def readComponent (r : Rd) : Res (Component × Rd) := do
   let (t, r) ← readTL r
   let (l, r) ← readTL r
-  if lenOutOfModel l then .oom else
   let (v, r) ← r.readBuf l
   pure (⟨t, v⟩, r)
 
@@ -115,7 +124,6 @@ def tlvLoop {σ : Type} (body : σ → Nat → Nat → Nat → Rd → Res (σ ×
     else do
       let (typ, r) ← readTL r
       let (l, r) ← readTL r
-      if lenOutOfModel l then .oom else
       let (st, r) ← body st typ l startPos r
       tlvLoop body fuel st r
 
@@ -134,7 +142,7 @@ def keyLocBody (k : KeyLoc) (typ l _sp : Nat) (r : Rd) : Res (KeyLoc × Rd) :=
     let (n, _, r) ← readNameField r l
     pure ({ k with name := some n }, r)
   else if typ = 29 then do
-    allocGuard r l
+    lenGuard r l
     let (v, r) ← r.readFull l
     pure ({ k with digest := some v }, r)
   else unknownField k typ l r
@@ -146,10 +154,10 @@ def parseKeyLoc (r : Rd) : Res KeyLoc := do
 /-- ValidityPeriod: both strings are required fields -/
 def validityBody (v : Option Bytes × Option Bytes) (typ l _sp : Nat) (r : Rd) : Res ((Option Bytes × Option Bytes) × Rd) :=
   if typ = 254 then do
-    let (s, r) ← r.readFull l
+    let (s, r) ← readString r l
     pure ((some s, v.2), r)
   else if typ = 255 then do
-    let (s, r) ← r.readFull l
+    let (s, r) ← readString r l
     pure ((v.1, some s), r)
   else unknownField v typ l r
 
@@ -172,7 +180,7 @@ def sigInfoBody (s : SigInfoSt) (typ l _sp : Nat) (r : Rd) : Res (SigInfoSt × R
     let k ← parseKeyLoc sub
     pure ({ s with si := { s.si with keyLoc := some k } }, r)
   else if typ = 38 then do
-    allocGuard r l
+    lenGuard r l
     let (v, r) ← r.readFull l
     pure ({ s with si := { s.si with nonce := some v } }, r)
   else if typ = 40 then do
@@ -202,7 +210,7 @@ def metaBody (m : MetaInfo) (typ l _sp : Nat) (r : Rd) : Res (MetaInfo × Rd) :=
     let (v, r) ← readNat r l 64
     pure ({ m with fresh := some v }, r)
   else if typ = 26 then do
-    allocGuard r l
+    lenGuard r l
     let (v, r) ← r.readFull l
     pure ({ m with fb := some v }, r)
   else unknownField m typ l r
@@ -239,9 +247,11 @@ def ordLoop {σ : Type} (n : Nat) (idx : Nat → Option Nat)
           pure ((st, q + 1), r)
         else ordLoop n idx handle absent typ l sp fuel (q + 1) (absent q st sp r) r
       | none =>
+        -- `default:` skips the element and does `progress--`: an unknown non-critical element does
+        -- not consume a field slot (fix F-13a)
         if critical typ then .err else do
           let r ← r.skip l
-          pure ((st, q + 1), r)
+          pure ((st, q), r)
 
 /-- the tail of an ordered `Parse`: slots never reached get their absent-action at the end position -/
 def ordFinish {σ : Type} (absent : Nat → σ → Nat → Rd → σ) (r : Rd) : Nat → Nat → σ → σ
